@@ -231,12 +231,22 @@ where
         if !check_iterable::<_, P>(run, rng, &m, &t, &d) || !check_fpp::<_, P>(run, &m, &t, Some(n), &d) {
             return;
         }
+        // the same diagnostics with the model type `&M` (the forwarding impl for references)
+        let r = &m;
+        if !check_iterable::<_, P>(run, rng, &r, &t, &format!("&({d})")) {
+            return;
+        }
+        run.count("diag_models_through_reference", 1);
     }
     let labels: Vec<i32> = (0..n as i32).map(|i| 1000 - 3 * i).collect();
     let tl = Table { rows: t.rows.iter().zip(&labels).map(|(r, l)| (*l, r.1, r.2)).collect() };
     if let Ok(m) = NonContiguousCategoricalDecoderModel::<i32, Pr, Vec<(Pr, i32)>, P>::from_symbols_and_nonzero_fixed_point_probabilities(labels.iter().copied(), probs.iter(), false) {
         let d = format!("NonContiguousDecoder (specialised impls) from {desc}");
         if !check_iterable::<_, P>(run, rng, &m, &tl, &d) {
+            return;
+        }
+        let r = &m;
+        if !check_iterable::<_, P>(run, rng, &r, &tl, &format!("&({d})")) {
             return;
         }
     }
